@@ -227,6 +227,74 @@ class Stubs:
             return bv(0, 32)   # persistent: the peer stays silent
         st.trace.append("select(r)=1")
         return bv(1, 32)
+    def s___ctype_b_loc(self, eng, st, a, wl):
+        """glibc: pointer to a pointer into the middle of the 384-entry character-class table ("C" locale),
+        valid for indices -128..255"""
+        for rid, r in st.regions.items():
+            if r.name == "ctype_b_loc":
+                return Ptr(rid, 0)
+        tab = eng.new_region(st, 384 * 2, "ctype_b table")
+        data = []
+        for c in range(-128, 256):
+            v = 0
+            if 0 <= c < 128:
+                ch = chr(c)
+                up, lowr, dig = "A" <= ch <= "Z", "a" <= ch <= "z", "0" <= ch <= "9"
+                xd = dig or "a" <= ch <= "f" or "A" <= ch <= "F"
+                sp = ch in " \t\n\v\f\r"
+                pr = 32 <= c < 127
+                gr = 33 <= c < 127
+                bl = ch in " \t"
+                cn = c < 32 or c == 127
+                al = up or lowr
+                pu = gr and not (al or dig)
+                for bit, on in enumerate([up, lowr, al, dig, xd, sp, pr, gr, bl, cn, pu, al or dig]):
+                    if on:
+                        v |= ((1 << bit) << 8) if bit < 8 else ((1 << bit) >> 8)
+            data += [bv(v & 0xff, 8), bv(v >> 8, 8)]
+        st.regions[tab].data = data
+        st.regions[tab].table = True
+        st.regions[tab].foreign = True
+        loc = eng.new_region(st, 8, "ctype_b_loc")
+        eng.store(st, Ptr(loc, 0), "i8*", Ptr(tab, 128 * 2))
+        st.regions[loc].foreign = True
+        return Ptr(loc, 0)
+    def s_recv(self, eng, st, a, wl):
+        flags = z3.simplify(a[3]).as_long()
+        if flags == 0:
+            return self.s_read(eng, st, a[:3], wl)
+        if flags != 0x100:
+            raise ValueError("recv flags %#x not modelled" % flags)
+        # MSG_WAITALL: block until the whole request is satisfied, the peer closes, or an error / signal
+        n = z3.simplify(a[2]).as_long()
+        env = st.env
+        total = 0
+        while total < n:
+            ev = env["reads"][0] if env["reads"] else ("close",)
+            if ev[0] == "data" and len(env["reply"]) - env["rpos"] > 0:
+                k = min(ev[1], n - total, len(env["reply"]) - env["rpos"])
+                chunk = env["reply"][env["rpos"]:env["rpos"] + k]
+                env["rpos"] += k
+                if ev[1] - k > 0:
+                    env["reads"][0] = ("data", ev[1] - k)
+                else:
+                    env["reads"].pop(0)
+                eng.store_bytes(st, Ptr(a[1].region, a[1].off + total), chunk)
+                st.delivered.extend(chunk)
+                total += k
+                continue
+            if ev[0] == "silence":
+                raise Violation("unbounded", "recv(MSG_WAITALL) blocks without a time limit while the peer stays silent after %d of %d bytes" % (total, n))
+            if ev[0] in ("err", "eintr"):
+                env["reads"].pop(0)
+                if total == 0:
+                    self.set_errno(eng, st, 104 if ev[0] == "err" else EINTR)
+                    st.trace.append("recv=-1")
+                    return bv(-1 & (2**64 - 1), 64)
+                break
+            break   # close (or data exhausted): what arrived so far
+        st.trace.append("recv=%d" % total)
+        return bv(total, 64)
     def s_write(self, eng, st, a, wl):
         n = z3.simplify(a[2]).as_long()
         data = eng.load_bytes(st, a[1], n) if n > 0 else []
